@@ -108,8 +108,14 @@ class PolicyScenario(cmdscn.CmdScenario):
                        if t['id'] in (c['method_arguments'] or '')
                        and c['target_method_name'].endswith(meth)
                        and not c['processing']]
-                for c in due:
-                    et = env._rel_time(c['execution_time'])
+                due = [(c, c['execution_time']) for c in due]
+                due += [(c, c['execute_at'])
+                        for c in post.get('scheduled_jobs_v2', [])
+                        if t['id'] in (c['func_args'] or '')
+                        and (c['func_name'] or '').endswith(meth)
+                        and c['captured_at'] is None]
+                for c, when in due:
+                    et = env._rel_time(when)
                     if int(et[1:]) < d:
                         v.append('task %s delayed by %ds (%s) but its '
                                  'wake-up job is due after %ss'
@@ -274,6 +280,10 @@ def scenarios(tier):
         kw = dict(extra)
         scn = PolicyScenario(name, prog, results=res, **kw)
         jobs.append((scn, 1 if quick else None, 40 if quick else 900, 1))
+        # the same scenario over the real DefaultScheduler (in-memory
+        # dispatcher + pool; its job-store poll is C13's subject)
+        jobs.append((common.variant(scn, '/dm', scheduler='default_mem'),
+                     1 if quick else 2, 40 if quick else 900, 1))
     return jobs
 
 
@@ -287,7 +297,7 @@ def main(tier):
         'virtual clock, 1 s resolution; a timer "fires early" = the clock '
         'is moved to the next due instant while other events are in flight '
         '(<= 2 such deviations per run)',
-        'transactions are atomic steps; legacy scheduler',
+        'transactions are atomic steps; every scenario once over the legacy scheduler and once over the DefaultScheduler (dispatcher + pool, no store poll)',
     ]
     return rep.finish(
         rule='policy parameter values x per-attempt outcome sequences x '
